@@ -53,10 +53,14 @@ func (c *Case) actionText(i int, lang string) string {
 	abort := ""
 	if r.Act.Abort {
 		// the user's action gives up (panics) after $$ was assigned: an abandoned parse
+		cond := "$$ % 5 == 2"
+		if r.Act.AbortEq != 0 {
+			cond = fmt.Sprintf("$$ == %d", r.Act.AbortEq)
+		}
 		if lang == "go" {
-			abort = sep + "if $$ % 5 == 2 { panic(\"vh-abort\") }"
+			abort = sep + "if " + cond + " { panic(\"vh-abort\") }"
 		} else {
-			abort = sep + "if ($$ % 5 == 2) { throw new Error(\"vh-abort\") }"
+			abort = sep + "if (" + cond + ") { throw new Error(\"vh-abort\") }"
 		}
 	}
 	if r.Act.Kind == "int" {
